@@ -180,6 +180,16 @@ public:
 
         m_fac_H(0, 0) = m_op.inner_product(v, w);
         m_fac_f.noalias() = w - v * m_fac_H(0, 0);
+        // Re-orthogonalize f against v if needed, as factorize_from() does for later columns:
+        // when f is small compared with ||A||, the projection above leaves a component
+        // of size eps * ||A|| along v, which is not small relative to ||f||
+        Scalar vf = m_op.inner_product(v, m_fac_f);
+        for (int count = 0; count < 5 && abs(vf) > m_eps * m_op.norm(m_fac_f); count++)
+        {
+            m_fac_f.noalias() -= v * vf;
+            m_fac_H(0, 0) += vf;
+            vf = m_op.inner_product(v, m_fac_f);
+        }
 
         // In some cases, H[1,1] is already an eigenvalue of A,
         // so f would be zero in exact arithmetics. But due to rounding errors,
